@@ -399,6 +399,44 @@ func c15Extra(r *Run) error {
 			}
 		}
 	}
+	// a table is named by a *TableRef node, which the walk finds; a plain string field that names one is invisible to it
+	// unless Tables() reads it (CreateIndexStmt.Table, the view and index names)
+	{
+		var bad, seen []string
+		for _, named := range nodeTypes {
+			st, _ := named.Underlying().(*types.Struct)
+			if st == nil {
+				continue
+			}
+			isStmt := types.Implements(types.NewPointer(named), c.stmt)
+			for i := 0; i < st.NumFields(); i++ {
+				f := st.Field(i)
+				if b, ok := f.Type().Underlying().(*types.Basic); !ok || b.Kind() != types.String {
+					continue
+				}
+				lower := strings.ToLower(f.Name())
+				if !(strings.Contains(lower, "table") || strings.Contains(lower, "relation") || strings.Contains(lower, "view")) {
+					continue
+				}
+				key := named.Obj().Name() + "." + f.Name()
+				seen = append(seen, key)
+				switch {
+				case named.Obj().Name() == "TableRef" || named.Obj().Name() == "ColumnReferences" || named.Obj().Name() == "TableForeignKey" || named.Obj().Name() == "ColumnRef" || named.Obj().Name() == "StarExpr":
+					// the reference node itself; a foreign key's target (named, not read); a column's qualifier
+				case isStmt:
+					// read by the statement's case in Tables()? (checked below by mention)
+					src := r.Prog.FuncDecls["("+modInternal+"sqlparse.Sqlparse).Tables"]
+					if src == nil || !mentions(src.Decl.Body, f.Name()) {
+						bad = append(bad, key+" is not read by Tables()")
+					}
+				default:
+					bad = append(bad, key+": a table named by a plain string inside an expression or clause node is invisible to the walk")
+				}
+			}
+		}
+		sort.Strings(bad)
+		r.table("C15/table-names-are-nodes[ast]", len(bad) == 0, "no AST node names a table by a plain string field that the table walk cannot see", fmt.Sprintf("string fields looked at: %v; %s", seen, strings.Join(bad, "; ")))
+	}
 	// every nodes() argument is a Node or a []Node
 	{
 		var bad []string
@@ -689,6 +727,8 @@ func c15Extra(r *Run) error {
 	os.Setenv("GOVC_TIER", r.Tier)
 	bound := "quick: 80 statement templates (every expression position of SELECT / INSERT / UPDATE / DELETE / CREATE TABLE AS / CREATE VIEW / CREATE INDEX) x 56 expression wrappers x 14 subquery forms, one subquery form per (template, wrapper) pair plus every form under the plain wrapper (about 5 300 statements, both dialects); thorough: the full product (about 60 000); 18 DDL / transaction statements"
 	r.boundedGoTest("C15-corpus", "for every generated statement that parses: Tables() reports the table the subquery reads, every table reference a reflection walk finds (outside exempt positions and in-scope WITH names), and the statement's own target with its usage; kinds are classified", bound)
+	r.boundedGoTest("C15-endtoend", "a caller without the permission a statement needs is refused by both SQL endpoints, on a real restricted SQLite DSN; what the caller may do is accepted",
+		"34 statements x {@sql, sql task, readrows task}, 4 batches mixing verbs, 2 transaction scripts that re-bind a symbol between two runs of the same task; one fixed set of grants")
 	// which node-bearing fields the corpus reached
 	for _, o := range r.Extra {
 		if o.Name != "bounded/C15-corpus" {
